@@ -24,7 +24,11 @@ MustKinds == {"iface", "generic", "grouped", "embed-std", "embed-local", "embed-
               "anon-params", "chan-func-params", "sort-like", "unicode", "line-directive", "rare-syntax",
               "tag-on", "shadowed-by-local", "struct-shadowed-by-local-iface-plus-iface",
               \* hand-written or third-party-generated source files carrying a generated-code header
-              "iface-in-generated-file", "iface-in-generated-file-blockcomment"}
+              "iface-in-generated-file", "iface-in-generated-file-blockcomment",
+              \* //line directives in every position a generator (goyacc, ragel, protoc plugins) puts them: BEFORE the
+              \* package clause (relative / absolute target, existing / missing target file), block form, mid-file
+              "line-before-package-rel", "line-before-package-abs", "line-before-package-existing", "line-block-before-package",
+              "line-mid-file", "line-goyacc-output"}
 \* no package-level interface of that name exists in an included file: nothing to mock, must not crash
 NoneKinds == {"struct", "functype", "local", "local-blank", "blank", "local-in-lit", "local-in-method",
               "local-in-generic-func", "local-shadows-struct", "tag-off", "ignored-file", "test-file", "init-funcs", "goos-file",
@@ -66,7 +70,10 @@ PkgShapes == {"only-test-files", "no-interfaces", "all-files-tagged-off", "only-
 CfgShapes == {"package-null", "pkg-config-null", "interfaces-null", "interfaces-empty", "iface-null", "iface-config-null",
               "configs-null", "configs-empty", "configs-null-entry", "configs-null-entry-among-entries",
               "root-template-data-null", "pkg-template-data-null", "iface-template-data-null",
-              "anchors-nonempty", "anchors-nested", "anchors-empty", "anchors-null", "yaml-anchor-merge"}
+              "anchors-nonempty", "anchors-nested", "anchors-empty", "anchors-null", "yaml-anchor-merge",
+              \* look like the conflict classes but are not: equal after templating / the same URL twice / packages that
+              \* share their NAME but write to their own files (each mock from its own package's interface)
+              "pkgname-equal-after-templating", "same-template-url-twice", "same-name-packages-own-files"}
 CfgShapeWorlds == {[kind |-> "cfgshape", decls |-> <<"iface">>, select |-> "all", spelling |-> "plain", layout |-> "sep", shape |-> s, ctx |-> x] :
                      s \in CfgShapes, x \in {"alone", "among"}}
 
